@@ -974,18 +974,59 @@ where
         };
         use crate::internals::hash_dual::algorithms::update_rle_block;
         let mut fuzzy = Self::new();
+        // A dual fuzzy hash also holds the raw form so that the block hashes
+        // must fit in the capacity *before* the normalization.  The parser
+        // only counts normalized characters so count the rest here: number of
+        // characters removed by the normalization (per block hash).
+        let mut removed_len_1 = 0usize;
+        let mut removed_len_2 = 0usize;
+        let mut last_index = 0usize;
         hash_from_bytes_with_last_index_internal_template! {
-            str, index, true,
+            str, &mut last_index, true,
             fuzzy.norm_hash.log_blocksize,
             { let mut  rle_offset = 0; },
-            #[inline(always)] |pos, len| rle_offset = update_rle_block(
-                &mut fuzzy.rle_block1, rle_offset, pos + block_hash::MAX_SEQUENCE_SIZE - 1, len),
+            #[inline(always)] |pos, len| {
+                // Do not touch the RLE block once the raw block hash
+                // gets too long (an error is returned below).
+                if pos + removed_len_1 + len <= S1 {
+                    rle_offset = update_rle_block(
+                        &mut fuzzy.rle_block1, rle_offset, pos + block_hash::MAX_SEQUENCE_SIZE - 1, len);
+                }
+                removed_len_1 += len - block_hash::MAX_SEQUENCE_SIZE;
+            },
             fuzzy.norm_hash.blockhash1, fuzzy.norm_hash.len_blockhash1,
-            { let mut  rle_offset = 0; },
-            #[inline(always)] |pos, len| rle_offset = update_rle_block(
-                &mut fuzzy.rle_block2, rle_offset, pos + block_hash::MAX_SEQUENCE_SIZE - 1, len),
+            {
+                let block_hash_1_start = str.iter().position(|&ch| ch == b':').map_or(0, |x| x + 1);
+                let raw_len_1 = fuzzy.norm_hash.len_blockhash1 as usize + removed_len_1;
+                if raw_len_1 > S1 {
+                    return Err(ParseError(
+                        ParseErrorKind::BlockHashIsTooLong,
+                        ParseErrorOrigin::BlockHash1,
+                        block_hash_1_start + S1,
+                    ));
+                }
+                let mut  rle_offset = 0;
+            },
+            #[inline(always)] |pos, len| {
+                if pos + removed_len_2 + len <= S2 {
+                    rle_offset = update_rle_block(
+                        &mut fuzzy.rle_block2, rle_offset, pos + block_hash::MAX_SEQUENCE_SIZE - 1, len);
+                }
+                removed_len_2 += len - block_hash::MAX_SEQUENCE_SIZE;
+            },
             fuzzy.norm_hash.blockhash2, fuzzy.norm_hash.len_blockhash2
         }
+        if fuzzy.norm_hash.len_blockhash2 as usize + removed_len_2 > S2 {
+            let block_hash_2_start = str.iter().position(|&ch| ch == b':').map_or(0, |x| x + 1)
+                + (fuzzy.norm_hash.len_blockhash1 as usize + removed_len_1)
+                + 1;
+            return Err(ParseError(
+                ParseErrorKind::BlockHashIsTooLong,
+                ParseErrorOrigin::BlockHash2,
+                block_hash_2_start + S2,
+            ));
+        }
+        *index = last_index;
         Ok(fuzzy)
     }
 
